@@ -70,6 +70,9 @@ struct Cfg {
   int rad_mode = 0;       // 0: radiation every step, 1: every 2.5 steps
   double max_neutral = -1.;
   bool diffuse_rhd = false;
+  // C01 RHD part: reduced buffer / task pools (see ion::Cfg::tight_pools)
+  bool tight_pools = false;
+  long nbuffers = 0, ntasks = 0; // 0 = capacities that cannot be exhausted
   // C14 (system level): where the process dies during a restart dump
   double crash_frac = 0.;  // fraction of the numbered file operations
   int crash_variant = 0;   // 0 before, 1 after, 2 torn write
@@ -141,6 +144,9 @@ struct Cfg {
     j["rad_mode"] = rad_mode;
     j["max_neutral"] = dbl_bits(max_neutral);
     j["diffuse_rhd"] = diffuse_rhd;
+    j["tight_pools"] = tight_pools;
+    j["nbuffers"] = (long long)nbuffers;
+    j["ntasks"] = (long long)ntasks;
     j["crash_frac"] = dbl_bits(crash_frac);
     j["crash_variant"] = crash_variant;
     j["crash_torn"] = dbl_bits(crash_torn);
@@ -205,6 +211,9 @@ struct Cfg {
     c.rad_mode = (int)j.at("rad_mode").as_int(0);
     c.max_neutral = j.has("max_neutral") ? bits_dbl(j.at("max_neutral").as_string()) : -1.;
     c.diffuse_rhd = j.at("diffuse_rhd").as_bool();
+    c.tight_pools = j.at("tight_pools").as_bool();
+    c.nbuffers = j.at("nbuffers").as_int(0);
+    c.ntasks = j.at("ntasks").as_int(0);
     c.crash_frac = j.has("crash_frac") ? bits_dbl(j.at("crash_frac").as_string()) : 0.;
     c.crash_variant = (int)j.at("crash_variant").as_int(0);
     c.crash_torn = j.has("crash_torn") ? bits_dbl(j.at("crash_torn").as_string()) : 0.5;
@@ -377,9 +386,11 @@ struct Cfg {
     o << "  do radiation: " << (radiation ? "true" : "false") << "\n";
     o << "  number of iterations: 2\n";
     o << "  number of photons: " << packets << "\n";
-    o << "  number of buffers: " << packets + 27 * total_subgrids() * 4 + 64
+    o << "  number of buffers: "
+      << (nbuffers > 0 ? nbuffers : packets + 27 * total_subgrids() * 4 + 64)
       << "\n";
-    o << "  number of tasks: " << 18 * total_subgrids() + 6 * packets + 2000
+    o << "  number of tasks: "
+      << (ntasks > 0 ? ntasks : 18 * total_subgrids() + 6 * packets + 2000)
       << "\n";
     o << "  queue size per thread: " << 18 * total_subgrids() + 6 * packets + 2000
       << "\n";
